@@ -1,6 +1,7 @@
 pub mod ber;
 pub mod frame;
 pub mod textl;
+pub mod req;
 use crate::rng::Rng;
 
 pub fn group_salt(group: &str) -> u64 { group.bytes().fold(0xcbf29ce484222325u64, |h, b| (h ^ b as u64).wrapping_mul(0x100000001b3)) }
@@ -15,6 +16,7 @@ pub fn gen(group: &str, rng: &mut Rng, n: usize, out: &mut Vec<String>) {
         "entry" => textl::gen_entry(rng, n, out),
         "result" => textl::gen_result(rng, n, out),
         "url" => textl::gen_url(rng, n, out),
+        "req" => req::gen(rng, n, out),
         _ => panic!("unknown group {}", group),
     }
 }
@@ -23,6 +25,7 @@ pub fn run(lane: &str, args: &[&str]) -> (String, Option<String>) {
     match lane {
         "enc" | "parse" | "int" | "bool" => ber::run(lane, args),
         "frame" => frame::run(lane, args),
+        "req" => req::run(lane, args),
         "filter" | "esc" | "utf8" | "entry" | "result" | "helpers" | "url" => textl::run(lane, args),
         _ => ("UNKNOWN-LANE".into(), None),
     }
